@@ -103,6 +103,12 @@ CHECKS = {
         text="TLC checks on all histories of 6-7 operations (cache capacity 1 and 2) that a resumed connection continues an earlier full handshake with the same identity, suite and client-certificate status; every history connect / <=2 changes / connect and hundreds of simulated histories (rotations keeping or dropping old keys, suite list and ClientAuth changes on either side, tickets disabled, tampering per ticket region, cache capacity 1..3, two server names, GMSSL and TLS) run on the real code: each connection must resume exactly when the gate holds, never fail, agree on DidResume, suite and keys on both ends, carry the original master secret and client identity; single-byte ticket changes (every byte in thorough) must fall back to a full handshake.",
         note="Server CipherSuites are always listed explicitly (the statement's positive clause). Trusts the accessors that expose the ticket of a cached client session. Histories beyond 7 operations are not model-checked.",
         ref="DESIGN.md section 5 C16"),
+    "C18": dict(
+        level="fault_enumeration",
+        technique="TLA+ spec TLV (total BER/DER tag-length-value reader as a state machine with a step counter; termination within 4*len+4 steps, in-bounds indexing and absence of stuck states checked by TLC for every string up to a length bound over the critical-byte alphabet); TLC extracts the TLV nodes of a library-produced corpus, which generate the structural mutation catalogue; every mutant and every TLC-enumerated short string is run through the real decoders under recover, a deadline and an allocation counter",
+        text="35 corpus items (certificate, request, CRL, enveloped and signed PKCS#7, PKCS#8 plain and encrypted, PKCS#1, PKIX key, PEM keys and certificates plain and encrypted, SM4 key PEM, hex keys, PKCS#12, raw and ASN.1 SM2 ciphertexts, signature, compressed point, every GMSSL handshake message kind, session ticket and session state) through 60 decoder entry points: every truncation, seven substitutions per byte, five length rewrites and eleven tag swaps per TLV node, nesting to 10^4 (definite and indefinite), empty and random strings, and all strings up to 4 bytes over 12 critical byte values; each call must return within 3 s without panicking and allocate no more than 256 x input + 8 MiB, except where a mutated password-stretching iteration count is the cause (quick tier samples byte positions of long items).",
+        note="Fault enumeration over the catalogue of the quantifier, not all byte strings. Trusts recover(), the wall clock and runtime/metrics. A fatal runtime error (stack exhaustion) would kill the harness and is reported as an infrastructure failure with the input named, not as a verdict.",
+        ref="DESIGN.md section 5 C18"),
     "C19": dict(
         level="model_checking",
         technique="TLA+ spec PadStream + refinement PadStreamImpl checked by TLC; TLC-generated environments replayed on the real objects; recorded traces validated by TLC (PadStreamTrace)",
